@@ -234,9 +234,23 @@ func oracle(c cfg, o *vrt.Outcome) {
 	if c.body == "forever" && nbegin > 0 && !timeoutFired && c.limit == 0 {
 		o.Fail("C05/timeout-not-applied", "forever", "bodies never finish but the completion-timeout path was not taken")
 	}
-	if !timeoutFired {
+	// After the completion timeout expired, iterations still in flight (and whoever waits
+	// for them) are on their own. But if no iteration is in flight at the end - no thread
+	// sits in a body's sleep or in a body that blocks for ever - then whatever is still
+	// alive was not waiting for an iteration: a worker that missed its wake-up, say.
+	inFlight := false
+	for _, l := range o.Leaks {
+		if strings.Contains(l, "Sleep") || strings.Contains(l, "body-blocks-for-ever") {
+			inFlight = true
+		}
+	}
+	if !timeoutFired || !inFlight {
 		for _, l := range o.Leaks {
-			o.Fail("C05/goroutine-left", strings.TrimSpace(strings.SplitN(l, ":", 2)[1]), "thread still alive after the run returned and 3 s passed: "+l)
+			what := "thread still alive after the run returned and 3 s passed: "
+			if timeoutFired {
+				what = "the run sat out the completion timeout with no iteration in flight, and a thread is left: "
+			}
+			o.Fail("C05/goroutine-left", strings.TrimSpace(strings.SplitN(l, ":", 2)[1]), what+l)
 			break
 		}
 	}
@@ -313,6 +327,7 @@ func scenariosFor(tier string) []vrt.Scenario {
 	// an iteration is in flight when the caller cancels / when the last stage of a plan whose first stage is a users stage ends
 	add(b, cfg{mode: "constant", maxDur: ms(2000), cancelAt: ms(150), body: "sleeplong"})
 	add(b-1, cfg{mode: "file-users-first", maxDur: ms(2000), cancelAt: never, body: "sleeplong", conc: 2})
+	add(b-1, cfg{mode: "users", maxDur: ms(2000), cancelAt: ms(0), body: "sleep30", conc: 2}) // the interrupt lands while the pool is starting up
 	if quick {
 		add(0, cfg{mode: "ramp", maxDur: ms(500), cancelAt: never, body: "sleep30"})
 		add(0, cfg{mode: "gaussian", maxDur: ms(500), cancelAt: never, body: "sleep30"})
